@@ -10,6 +10,7 @@ EXPLANATION = ("Contracts on the real primitive codecs are discharged by pyvc (A
 def units(ctx):
     us = contract_units("C01", MODULES, ctx,
                         weight={"kmip.core.primitives.ByteString.read": 50})
-    from vf import ttlvunits
+    from vf import ttlvunits, bounded
     us += ttlvunits.make_units(ctx, "C01")
+    us += bounded.units(["biginteger", "bit_length"], ctx)
     return us
